@@ -3797,20 +3797,24 @@ class BoutMesh(Mesh):
 
             if len(self.y_regions_noguards) == 1:
                 # No X-points
+                # Note: BOUT++ indices do not include boundary guard cells
                 jyseps1_1 = -1
-                jyseps2_1 = self.ny // 2
-                ny_inner = self.ny // 2
-                jyseps1_2 = self.ny // 2
-                jyseps2_2 = self.ny
+                jyseps2_1 = self.ny_noguards // 2
+                ny_inner = self.ny_noguards // 2
+                jyseps1_2 = self.ny_noguards // 2
+                jyseps2_2 = self.ny_noguards
             elif len(self.y_regions_noguards) == 2:
                 raise ValueError("Unrecognized topology with 2 y-regions")
             elif len(self.y_regions_noguards) == 3:
                 # single-null
                 jyseps1_1 = self.y_regions_noguards[0] - 1
-                jyseps2_1 = self.ny // 2
-                ny_inner = self.ny // 2
-                jyseps1_2 = self.ny // 2
                 jyseps2_2 = sum(self.y_regions_noguards[:2]) - 1
+                # jyseps2_1 = jyseps1_2 marks a single null. The value must lie between
+                # jyseps1_1 and jyseps2_2 (it may not when the legs have very different
+                # lengths), otherwise BOUT++ 'corrects' the indices when loading the grid
+                jyseps2_1 = min(max(self.ny // 2, jyseps1_1), jyseps2_2)
+                ny_inner = jyseps2_1
+                jyseps1_2 = jyseps2_1
             elif len(self.y_regions_noguards) == 4:
                 # single X-point with all 4 legs ending on walls
                 jyseps1_1 = self.y_regions_noguards[0] - 1
